@@ -30,7 +30,7 @@ func mapRanges(fn *ssa.Function) []ssa.Instruction {
 func C17(p *ir.Program, r *report.R) {
 	c := C{p, r}
 	r.Floor = 50
-	r.Explain = "Decided: Validator.CompareAccum interpreted exhaustively over {nil?} x {Accum <,=,>} x {address order <,=,>} (greater accum wins, tie -> lower address, identical -> panic: total and antisymmetric, so the heap's choice does not depend on insertion order); accumComparable.Less and ValidatorsByAddress.Less derived from it / strict; NewValidatorSet sorts copies before use; Add/Update/Remove reset the cached proposer and total on every successful path; ValidatorSet.Hash walks the slice in index order and Validator.Hash covers Address, PubKey, CoinBase, VotingPower but not Accum; every store to Validator.Accum and ValidatorSet.totalVotingPower comes from the saturating helpers (or a constant / copy); the three places that recompute the expected proposer of the last block agree; rotation call sites rotate a copy by round-cs.Round under cs.Round<round, and by the constant 1 iff the set did not change; no map iteration, time or randomness in the validator-set code and the candidate -> validator functions (seeded RandomSort takes its seed from the block's LastCommit hash); compositionality of IncrementAccum(n) (n single steps) by shape. NOT decided: proportional fairness over time, correctness of the clipping arithmetic itself."
+	r.Explain = "Decided: Validator.CompareAccum interpreted exhaustively over {nil?} x {Accum <,=,>} x {address order <,=,>} (greater accum wins, tie -> lower address, identical -> panic: total and antisymmetric, so the heap's choice does not depend on insertion order); accumComparable.Less and ValidatorsByAddress.Less derived from it / strict; NewValidatorSet sorts copies before use; Add/Update/Remove reset the cached proposer and total on every successful path; ValidatorSet.Hash walks the slice in index order and Validator.Hash covers Address, PubKey, CoinBase, VotingPower but not Accum; every store to Validator.Accum and ValidatorSet.totalVotingPower comes from the saturating helpers (or a constant / copy); the three places that recompute the expected proposer of the last block agree; rotation call sites rotate a copy by round-cs.Round under cs.Round<round, and by the constant 1 iff the set did not change; no map iteration, time or randomness in the validator-set code and the candidate -> validator functions (seeded RandomSort takes its seed from the block's LastCommit hash); compositionality of IncrementAccum(n) (n single steps) by shape. ADDED after seeded-change testing: The operands of the saturating helpers contain no raw integer arithmetic; ValidatorSet.Copy assigns every field, Proposer from the source's Proposer. NOT decided: proportional fairness over time, correctness of the clipping arithmetic itself."
 	r.Trusted = []string{"container/heap", "sort.Sort/sort.Search"}
 
 	// ---- CompareAccum ------------------------------------------------------------
@@ -181,6 +181,37 @@ func C17(p *ir.Program, r *report.R) {
 		safe := func(v string) bool {
 			return strings.HasPrefix(v, "types.safeAddClip(") || strings.HasPrefix(v, "types.safeSubClip(") || strings.HasPrefix(v, "types.safeMulClip(") || v == "0"
 		}
+		// the operands of a saturating helper must themselves be free of raw int64 arithmetic:
+		// safeAddClip(a, p*n) wraps in the product before the sum is clipped
+		var rawArith func(v ssa.Value, depth int) string
+		rawArith = func(v ssa.Value, depth int) string {
+			if depth > 8 {
+				return ""
+			}
+			switch x := v.(type) {
+			case *ssa.BinOp:
+				switch x.Op.String() {
+				case "*", "+", "-", "<<":
+					if b, ok := x.Type().Underlying().(*types.Basic); ok && b.Info()&types.IsInteger != 0 {
+						return ir.Render(x)
+					}
+				}
+			case *ssa.Call:
+				n := ir.CalleeName(x)
+				if n == "types.safeAddClip" || n == "types.safeSubClip" || n == "types.safeMulClip" {
+					for _, a := range x.Call.Args {
+						if bad := rawArith(a, depth+1); bad != "" {
+							return bad
+						}
+					}
+				}
+			case *ssa.Convert:
+				return rawArith(x.X, depth+1)
+			case *ssa.ChangeType:
+				return rawArith(x.X, depth+1)
+			}
+			return ""
+		}
 		for _, s := range p.Stores(p.Field("types", "Validator.Accum")) {
 			if s.Kind == "complit" || ir.IsLocalAddr(s.Base) {
 				continue
@@ -189,7 +220,8 @@ func C17(p *ir.Program, r *report.R) {
 			if strings.Contains(p.InstrPos(s.Instr), "_test") {
 				continue
 			}
-			r.Check("K11", "saturating/Validator.Accum/"+n, p.InstrPos(s.Instr), safe(ir.Render(s.Val)), "Accum is assigned only from the saturating helpers: "+short(ir.Render(s.Val), 120))
+			raw := rawArith(s.Val, 0)
+			r.Check("K11", "saturating/Validator.Accum/"+n, p.InstrPos(s.Instr), safe(ir.Render(s.Val)) && raw == "", "Accum is assigned only from the saturating helpers, whose operands contain no raw arithmetic: "+short(ir.Render(s.Val), 120)+" raw: "+raw)
 		}
 		for _, s := range p.Stores(p.Field("types", "ValidatorSet.totalVotingPower")) {
 			if s.Kind == "complit" {
@@ -290,6 +322,34 @@ func C17(p *ir.Program, r *report.R) {
 				"IncrementAccum(n) must equal n single steps: each step adds VotingPower once to everyone, then decrements the maximum; adding VotingPower*times up front and popping the maximum `times` times is a different function: "+short(v, 140))
 		}
 		c.MustFind("K5", "compose/"+name, fn, n, "Accum += ... store")
+	}
+	// ---- a copy carries the designated proposer ----------------------------------------------------
+	// GetProposer() of a copy must be the validator IncrementAccum designated, not a recomputation
+	// from the (already decremented) accumulators: Copy assigns every field of ValidatorSet.
+	{
+		cp := p.Func("types", "ValidatorSet.Copy")
+		st := p.Struct("types", "ValidatorSet")
+		got := map[string]string{}
+		ir.Instrs(cp, func(in ssa.Instruction) {
+			if s, ok := in.(*ssa.Store); ok {
+				if fa, ok := s.Addr.(*ssa.FieldAddr); ok {
+					if fv := ir.FieldVar(fa.X, fa.Field); fv != nil {
+						if al, ok := fa.X.(*ssa.Alloc); ok && strings.Contains(al.Type().String(), "ValidatorSet") {
+							got[fv.Name()] = ir.Render(s.Val)
+						}
+					}
+				}
+			}
+		})
+		for i := 0; i < st.NumFields(); i++ {
+			n := st.Field(i).Name()
+			v, ok := got[n]
+			okV := ok
+			if n == "Proposer" {
+				okV = ok && (v == "valSet.Proposer" || strings.HasPrefix(v, "types.Validator.Copy(valSet.Proposer"))
+			}
+			r.Check("K4", "types.(*ValidatorSet).Copy/field:"+n, p.Pos(cp.Pos()), okV, "the copy assigns field "+n+": "+v)
+		}
 	}
 	// ---- determinism sources ------------------------------------------------------------------
 	{
